@@ -160,7 +160,7 @@ func Verif_C15_open_bytes_small() {
 // OPEN value -> bytes -> value for representable OPENs
 func Verif_C15_open_value_roundtrip() {
 	verifLoopBound(4)
-	verifNote("OPEN value->bytes->value: 1 (quick) / 1..2 (thorough) capability parameters x 1..2 capabilities, value lengths symbolic 0..255, assumed representable (every parameter and the parameter block <= 255 bytes)")
+	verifNote("OPEN value->bytes->value: one capability parameter with 1..2 capabilities (both tiers) and, thorough only, two parameters with one capability each (two x two left one query undecided within 60 s on a second run and is therefore not registered); value lengths symbolic 0..255, assumed representable (every parameter and the parameter block <= 255 bytes)")
 	np := 1
 	if verifTier() >= 1 {
 		np = 1 + verifChoose("params", 2)
@@ -169,7 +169,10 @@ func Verif_C15_open_value_roundtrip() {
 	total := 0
 	var vals [][]byte
 	for p := 0; p < np; p++ {
-		nc := 1 + verifChoose("caps", 2)
+		nc := 1
+		if np == 1 {
+			nc = 1 + verifChoose("caps", 2)
+		}
 		cp := &capabilityOptionalParam{}
 		plen := 0
 		for c := 0; c < nc; c++ {
